@@ -327,6 +327,36 @@ func c08blockCase(c *vf.Ctx, i int) {
 
 // ------------------------------------------------------------ bloom
 
+// c08bloomMsg draws a filter-load message within the wire limits (nil for
+// one case in 25: no filter loaded).
+func c08bloomMsg(r *vf.Rand, i int) (*wire.MsgFilterLoad, int) {
+	var msg *wire.MsgFilterLoad
+	n := 0
+	if i%25 != 24 {
+		switch r.Intn(6) {
+		case 0:
+			n = 0
+		case 1:
+			n = 1 + r.Intn(3)
+		case 2:
+			n = []int{36000, 35999, 4096, 255, 256}[r.Intn(5)]
+		default:
+			n = r.Intn(64)
+		}
+		flt := r.Bytes(n)
+		if r.Bool() {
+			for k := range flt {
+				flt[k] = 0xff
+			}
+		}
+		msg = &wire.MsgFilterLoad{Filter: flt, HashFuncs: uint32(r.Intn(51)), Tweak: r.Uint32(), Flags: wire.BloomUpdateType(r.Intn(256))}
+		if r.Bool() {
+			msg.Flags = wire.BloomUpdateType(r.Intn(3))
+		}
+	}
+	return msg, n
+}
+
 func c08bloomCase(c *vf.Ctx, i int) {
 	m := newC08mon(c)
 	defer m.done()
@@ -421,7 +451,41 @@ func c08bloomCase(c *vf.Ctx, i int) {
 			})
 		}
 	}
-	m.run("bloom.Filter.Reload", n+9, d, func() { f.Reload(msg); f.Unload(); _ = f.Matches(data); f.Add(data); _ = f.MatchTxAndUpdate(tx) })
+	if !m.run("bloom.Filter.Reload", n+9, d, func() { f.Reload(msg); f.Unload(); _ = f.Matches(data); f.Add(data); _ = f.MatchTxAndUpdate(tx) }) {
+		return
+	}
+	// the same object lives on: a peer sends further filterload messages
+	// (another size, empty, full, none), each followed by queries
+	prev := "unloaded"
+	for life := 0; life < 3; life++ {
+		msg2, n2 := c08bloomMsg(r, r.Intn(50))
+		d2 := func() string {
+			if msg2 == nil {
+				return fmt.Sprintf("%s; then (state: %s) Reload(nil)", d(), prev)
+			}
+			return fmt.Sprintf("%s; then (state: %s) Reload{len(Filter)=%d HashFuncs=%d Tweak=%d Flags=%d}", d(), prev, len(msg2.Filter), msg2.HashFuncs, msg2.Tweak, msg2.Flags)
+		}
+		c.Inc("bloom/reloads_of_a_used_filter_object")
+		if msg2 != nil && n2 == 0 {
+			c.Inc("bloom/reloads_with_empty_filter")
+		}
+		if !m.run("bloom.Filter.Reload", n2+9, d2, func() { f.Reload(msg2) }) {
+			return
+		}
+		if !m.run("bloom.Filter.Matches", n2+9+len(data), d2, func() { _ = f.Matches(data); _ = f.MatchesOutPoint(op) }) {
+			return
+		}
+		if !m.run("bloom.Filter.MatchTxAndUpdate", n2+9+txLen, d2, func() { _ = f.MatchTxAndUpdate(tx) }) {
+			return
+		}
+		if !m.run("bloom.Filter.Add", n2+9+len(data)+68, d2, func() { f.Add(data); f.AddHash(&h); f.AddOutPoint(op) }) {
+			return
+		}
+		prev = fmt.Sprintf("%d-byte filter loaded", n2)
+		if msg2 == nil {
+			prev = "none loaded"
+		}
+	}
 }
 
 // ------------------------------------------------------------ merkle block
